@@ -384,7 +384,7 @@ func (c *Ctx) rulePerRecipientWrites(id string) {
 	c.R.Fn(c.fname(fan))
 	gets := core.CallsTo(fan, o.localGet)
 	g := gets[0]
-	loop := core.InnermostLoop(core.Loops(fan), g.Instr.Block())
+	loop, exitFn, exitLoop, callSite := c.fanLoop(o, fan, g)
 	if loop == nil {
 		ru.Fail("fan-out loop of "+c.fname(fan), c.where(fan, fan), "the registry lookup is not inside a loop over the recipients")
 		return
@@ -392,7 +392,7 @@ func (c *Ctx) rulePerRecipientWrites(id string) {
 	directGet := func(f *ssa.Function) bool {
 		return f != nil && f.Parent() == nil && o.arming[f] == nil && c.callsTransitively(f, 0, func(x *core.Call) bool { return x.Is(o.midGet) })
 	}
-	paths, err := c.pathsInlined(fan, core.PathOpts{Start: g.Instr.Block(), Stop: func(b *ssa.BasicBlock) bool { return b == loop.Header }},
+	paths, err := c.pathsInlined(fan, core.PathOpts{Start: g.Instr.Block(), Stop: func(b *ssa.BasicBlock) bool { return loop.Header != nil && b == loop.Header }},
 		func(cl *core.Call) bool {
 			return isArmCall(cl) || cl.Is(o.midGet, o.midPut) || directGet(cl.Static) || (cl.Obj != nil && cl.Obj.Pkg() != nil && cl.Obj.Pkg().Path() == pkgEncoder)
 		},
@@ -480,17 +480,25 @@ func (c *Ctx) rulePerRecipientWrites(id string) {
 	ru.Check(bad == "", "per-recipient table of "+c.fname(fan), c.where(fan, fan), fmt.Sprintf("rows %v", rows), bad)
 	// the recipient loop is left only through its normal end
 	bad = ""
-	for b := range loop.Blocks {
+	for b := range exitLoop.Blocks {
 		if _, isRet := b.Instrs[len(b.Instrs)-1].(*ssa.Return); isRet {
 			bad = "return inside the recipient loop"
 		}
 		for _, sb := range b.Succs {
-			if !loop.Blocks[sb] && b != loop.Header {
+			if !exitLoop.Blocks[sb] && b != exitLoop.Header {
 				bad = "the recipient loop can be left early at " + c.P.Pos(lastPos(b)) + ": when one recipient is missing or cannot be served, the recipients listed after it never receive the message"
 			}
 		}
 	}
-	ru.Check(bad == "", "exits of the recipient loop in "+c.fname(fan), c.where(fan, fan), "only the loop's normal end", bad)
+	if callSite != nil {
+		// the loop body is the fan-out function itself: it must be called on every iteration
+		for _, pr := range exitLoop.Header.Preds {
+			if exitLoop.Blocks[pr] && !callSite.Block().Dominates(pr) {
+				bad = "an iteration of the recipient loop can skip the call that serves its recipient (" + c.P.Pos(lastPos(pr)) + ")"
+			}
+		}
+	}
+	ru.Check(bad == "", "exits of the recipient loop in "+c.fname(exitFn), c.where(exitFn, exitFn), "only the loop's normal end", bad)
 	// the packet armed for a recipient is that recipient's own object
 	bad = ""
 	nArm := 0
@@ -553,7 +561,14 @@ func (c *Ctx) rulePerRecipientWrites(id string) {
 	// the lookup key is the recipient of this iteration
 	keyOK := depReaches(g.Arg(0), func(v ssa.Value) bool {
 		ia, ok := v.(*ssa.IndexAddr)
-		return ok && reachesParam(ia.X, fan, sliceStringParam(fan))
+		if !ok {
+			return false
+		}
+		if reachesParam(ia.X, fan, sliceStringParam(fan)) {
+			return true
+		}
+		// the loop body called with the recipient itself: the element is taken in the caller, from its recipients parameter
+		return exitFn != fan && reachesParam(ia.X, exitFn, sliceStringParam(exitFn))
 	})
 	ru.Check(keyOK, "registry key in "+c.fname(fan), c.whereI(g.Instr), "LocalState.Get(recipients[i])", "the session is not looked up by the recipient's id")
 }
@@ -1097,6 +1112,8 @@ func (c *Ctx) fanOut(o *outbound) *ssa.Function {
 		for _, g := range core.CallsTo(f, o.localGet) {
 			if core.InnermostLoop(loops, g.Instr.Block()) != nil {
 				inLoop = true
+			} else if _, cl := c.callerLoop(f); cl != nil {
+				inLoop = true // the body of the recipient loop is this function: one call per recipient
 			}
 		}
 		if inLoop && c.reaches(f, 2, isArmCall) {
@@ -1104,6 +1121,37 @@ func (c *Ctx) fanOut(o *outbound) *ssa.Function {
 		}
 	}
 	return fan
+}
+
+// callerLoop: f is called from exactly one place in the module, inside a loop: the caller and that loop.
+func (c *Ctx) callerLoop(f *ssa.Function) (ssa.CallInstruction, *core.Loop) {
+	sites := c.P.StaticCallers(f)
+	if len(sites) != 1 {
+		return nil, nil
+	}
+	l := core.InnermostLoop(core.Loops(sites[0].Parent()), sites[0].Block())
+	if l == nil {
+		return nil, nil
+	}
+	return sites[0], l
+}
+
+// fanLoop returns the recipient loop as the per-recipient rules need it: the set of blocks that run once per recipient
+// (the loop's blocks, or the whole fan-out function when it is the loop's body called from another function; Header
+// is nil then), and the function and loop whose exits decide whether every recipient is served.
+func (c *Ctx) fanLoop(o *outbound, fan *ssa.Function, g *core.Call) (iter *core.Loop, exitFn *ssa.Function, exitLoop *core.Loop, callSite ssa.CallInstruction) {
+	if l := core.InnermostLoop(core.Loops(fan), g.Instr.Block()); l != nil {
+		return l, fan, l, nil
+	}
+	site, cl := c.callerLoop(fan)
+	if cl == nil {
+		return nil, nil, nil, nil
+	}
+	blocks := map[*ssa.BasicBlock]bool{}
+	for _, b := range fan.Blocks {
+		blocks[b] = true
+	}
+	return &core.Loop{Blocks: blocks}, site.Parent(), cl, site
 }
 
 // deliveryPackets lists the per-recipient packets of the fan-out: what is handed to the arming functions and to the
